@@ -1,0 +1,88 @@
+/**
+ * @file verif/rsv.h
+ *
+ * @brief Verification hooks (scheduling points, trace events, virtual clock)
+ *
+ * Everything in here expands to nothing unless ROOT_SIM_CORE_VERIF is defined. The hook functions themselves are
+ * provided by the external verification harness, not by the core.
+ *
+ * SPDX-FileCopyrightText: 2008-2022 HPDCS Group <rootsim@googlegroups.com>
+ * SPDX-License-Identifier: GPL-3.0-only
+ */
+#pragma once
+
+#ifdef ROOT_SIM_CORE_VERIF
+
+#include <stdint.h>
+
+/// Scheduling points: the harness may switch to another thread here
+enum rsv_site {
+	RSV_SITE_BARRIER_ENTER = 1,
+	RSV_SITE_BARRIER_SPIN,
+	RSV_SITE_QUEUE_INSERT,
+	RSV_SITE_QUEUE_INSERT_CAS,
+	RSV_SITE_QUEUE_INSERT_RETRY,
+	RSV_SITE_QUEUE_SWAP,
+	RSV_SITE_GVT_PHASE,
+	RSV_SITE_PROCESS_MSG,
+	RSV_SITE_FLAG_PROCESSED,
+	RSV_SITE_FLAG_ANTI,
+	RSV_SITE_FLAG_UNPROCESSED,
+	RSV_SITE_MAIN_LOOP,
+	RSV_SITE_DRAIN,
+	RSV_SITE_COUNT
+};
+
+/// Trace events
+enum rsv_event {
+	RSV_EV_GVT = 1,        ///< a thread is handed a new GVT value (t)
+	RSV_EV_EXTRACT,        ///< process_msg() extracted a message (p = msg, a = flags before)
+	RSV_EV_PROCESS,        ///< forward execution of a message is complete (p = msg, a = lp)
+	RSV_EV_ROLLBACK,       ///< an LP is about to be rolled back (p = lp, a = entries kept, b = entries before)
+	RSV_EV_ROLLBACK_DONE,  ///< state restored and coasting forward complete (p = lp, a = entries kept)
+	RSV_EV_UNPROCESS,      ///< a processed message has been undone (p = msg, a = flags before)
+	RSV_EV_ANTI_LOCAL,     ///< a local message is being cancelled by its sender (p = msg, a = flags before)
+	RSV_EV_ANTI_REMOTE,    ///< a remote anti-message is being sent (p = local copy of the msg)
+	RSV_EV_SILENT,         ///< silent re-execution of a message (p = msg)
+	RSV_EV_SILENT_SEND,    ///< ScheduleNewEvent() suppressed during silent execution
+	RSV_EV_CKPT,           ///< a checkpoint has been taken (p = lp, a = reference index)
+	RSV_EV_SEND_LOCAL,     ///< a message has been sent to a local LP (p = msg, a = sender lp)
+	RSV_EV_SEND_REMOTE,    ///< a message has been sent to a remote LP (p = msg, a = sender lp)
+	RSV_EV_FOSSIL_BEGIN,   ///< fossil collection of an LP (p = lp, a = entries to release, t = gvt in force)
+	RSV_EV_FOSSIL_ENTRY,   ///< a history entry is being released (p = tagged entry, a = lp)
+	RSV_EV_FINI_ENTRY,     ///< a history entry is still held at LP finalization (p = tagged entry, a = lp)
+	RSV_EV_MSG_ALLOC,      ///< a message buffer has been handed out (p = msg)
+	RSV_EV_MSG_FREE,       ///< a message buffer is being released (p = msg)
+	RSV_EV_VOTE,           ///< a thread votes for termination (t = gvt)
+	RSV_EV_STATS_FLUSH,    ///< a per-thread statistics record is being written (t = gvt)
+	RSV_EV_LP_INIT,        ///< an LP has been initialised by the calling thread (a = lp id)
+	RSV_EV_LP_FINI,        ///< an LP is being finalised by the calling thread (a = lp id)
+	RSV_EV_QUEUE_LEFT,     ///< a message was still queued at shutdown (p = msg)
+	RSV_EV_EARLY_ANTI,     ///< a remote anti-message arrived before its message (p = anti msg)
+	RSV_EV_EARLY_MATCH,    ///< a remote message was annihilated by a stored early anti-message (p = msg)
+	RSV_EV_REMOTE_ANTI,    ///< a remote anti-message matched a processed message (p = msg, a = lp)
+	RSV_EV_ANTI_DROP,      ///< an extracted cancelled message is discarded without rollback (p = msg)
+	RSV_EV_STAGE,          ///< progress marker (a = stage number)
+	RSV_EV_REMOTE_RECV,    ///< a remote (anti-)message has been received and queued (p = msg, a = 1 if anti)
+	RSV_EV_AT_GVT_FREE,    ///< a sent remote message is scheduled for release at GVT (p = msg)
+	RSV_EV_COUNT
+};
+
+extern void rsv_yield(int site);
+extern void rsv_ev(int kind, const void *p, uint64_t a, uint64_t b, double t);
+extern int rsv_clock_virtual(void);
+extern uint64_t rsv_clock_us(void);
+extern uint64_t rsv_clock_hr(void);
+extern int rsv_threads_virtual(void);
+extern int rsv_thread_start(void *thr_p, void *(*fn)(void *), void *arg);
+extern int rsv_thread_join(void *thr_p, void **ret);
+
+#define RSV_YIELD(site) rsv_yield(site)
+#define RSV_EV(kind, p, a, b, t) rsv_ev((kind), (p), (uint64_t)(a), (uint64_t)(b), (t))
+
+#else
+
+#define RSV_YIELD(site) ((void)0)
+#define RSV_EV(kind, p, a, b, t) ((void)0)
+
+#endif
